@@ -25,6 +25,13 @@ def main():
     except common.Timeout as e:
         print('TIMEOUT in %s: %s' % (a.prop, e))
         sys.exit(2)
+    except common.ModelUnavailable as e:
+        # the executable model no longer builds against the current source and this harness had no
+        # oracle-only path left to run: the correspondence is broken, no failing input was pinned down
+        rep.violation('model-unavailable', 'the executable model could not be built: %s' % e,
+                      dict(correspondence='model driver of %s' % a.prop, detail=str(e)), found_input=False)
+        sys.exit(rep.finish(level='proof', checker_cmd='(model driver does not build)', trusted=[],
+                            explanation='run aborted: ' + str(e)))
     except Exception as e:
         tb = traceback.extract_tb(e.__traceback__)
         src = os.path.join(common.REPO, 'src')
